@@ -426,6 +426,124 @@ pub fn errkind<E: std::fmt::Debug>(e: &E) -> String {
         .to_string()
 }
 
+// ---------------------------------------------------------------- a handler invoked without end
+/// A recording handler that has been invoked this many times for one step stops recording and parks its caller until the
+/// engine tears the case down (a library that keeps re-invoking the handler would otherwise fill the disk with call records).
+pub const STORM_CALLS: usize = 64;
+pub static STORM_GEN: std::sync::atomic::AtomicU64 = std::sync::atomic::AtomicU64::new(0);
+pub fn storm_park() {
+    let g = STORM_GEN.load(std::sync::atomic::Ordering::SeqCst);
+    let t0 = std::time::Instant::now();
+    while STORM_GEN.load(std::sync::atomic::Ordering::SeqCst) == g && t0.elapsed() < std::time::Duration::from_secs(300) {
+        std::thread::sleep(std::time::Duration::from_millis(1));
+    }
+}
+pub fn storm_release() {
+    STORM_GEN.fetch_add(1, std::sync::atomic::Ordering::SeqCst);
+}
+
+// ---------------------------------------------------------------- "never returns" as a positive observation
+/// Kernel thread id of the calling thread.
+pub fn gettid() -> i32 {
+    // SAFETY: gettid has no preconditions.
+    unsafe { libc::gettid() }
+}
+
+/// (scheduler state letter, number of the system call the thread is blocked in or -1) of a thread of this process.
+pub fn thread_state(tid: i32) -> (char, i64) {
+    let stat = match std::fs::read_to_string(format!("/proc/self/task/{tid}/stat")) {
+        Ok(s) => s,
+        Err(_) => return ('X', -1), // the thread has ended: it will not make progress either
+    };
+    // the state letter follows the parenthesised command name
+    let st = stat.rsplit(')').next().and_then(|r| r.trim().chars().next()).unwrap_or('?');
+    let sc = std::fs::read_to_string(format!("/proc/self/task/{tid}/syscall")).unwrap_or_default();
+    let nr = sc.split_whitespace().next().and_then(|x| x.parse::<i64>().ok()).unwrap_or(-1);
+    (st, nr)
+}
+
+/// CPU time (user + system, in clock ticks of 10 ms) a thread of this process has consumed so far.
+pub fn thread_cpu_ticks(tid: i32) -> u64 {
+    let stat = std::fs::read_to_string(format!("/proc/self/task/{tid}/stat")).unwrap_or_default();
+    let rest: Vec<&str> = stat.rsplit(')').next().unwrap_or("").split_whitespace().collect();
+    // after the command name: state(0) ppid pgrp session tty tpgid flags minflt cminflt majflt cmajflt utime(11) stime(12)
+    let f = |i: usize| rest.get(i).and_then(|x| x.parse::<u64>().ok()).unwrap_or(0);
+    f(11) + f(12)
+}
+
+/// Is every one of these threads asleep inside a blocking system call (receive, read, poll, lock wait, sleep) -- not merely
+/// waiting for a CPU -- and is there nothing left to read on any of these sockets?  Then nobody is going to make progress:
+/// the wait is a real one, whatever the load of the machine.  Sampled twice, 50 ms apart.
+pub fn all_blocked(tids: &[i32], socks: &[RawFd]) -> bool {
+    // x86-64: read 0, poll 7, nanosleep 35, recvfrom 45, recvmsg 47, futex 202, epoll_wait 232, clock_nanosleep 230,
+    // ppoll 271, epoll_pwait 281; aarch64: read 63, ppoll 73, recvfrom 207, recvmsg 212, futex 98, epoll_pwait 22, nanosleep 101/115
+    // (also write 1, select 23, connect 42, accept 43, sendto 44, sendmsg 46, wait4 61, pselect6 270, accept4 288)
+    const BLOCKING: [i64; 27] = [0, 1, 7, 23, 35, 42, 43, 44, 45, 46, 47, 61, 202, 232, 230, 270, 271, 281, 288, 63, 73, 207, 212, 98, 22, 101, 115];
+    let sample = || {
+        tids.iter().all(|t| {
+            let (st, nr) = thread_state(*t);
+            *t != 0 && (st == 'X' || ((st == 'S' || st == 'D') && BLOCKING.contains(&nr)))
+        }) && socks.iter().all(|s| fionread(*s) == 0)
+    };
+    if !sample() {
+        return false;
+    }
+    std::thread::sleep(std::time::Duration::from_millis(50));
+    sample()
+}
+
+/// Kernel thread ids of the threads of this process whose name is `name`.
+pub fn tids_named(name: &str) -> Vec<i32> {
+    let mut v = Vec::new();
+    if let Ok(d) = std::fs::read_dir("/proc/self/task") {
+        for e in d.flatten() {
+            if std::fs::read_to_string(e.path().join("comm")).map(|c| c.trim() == name).unwrap_or(false) {
+                if let Ok(t) = e.file_name().to_string_lossy().parse::<i32>() {
+                    v.push(t);
+                }
+            }
+        }
+    }
+    v
+}
+
+/// The watchdog of a polling loop has expired `since` ago: is the wait really over (everybody asleep with nothing to read),
+/// or has it merely been going on for a very long time (2 minutes)?  Otherwise the machine is just slow: keep polling.
+pub fn hang_confirmed(since: std::time::Instant, tids: &[i32], socks: &[RawFd]) -> bool {
+    // (a thread that has used more than five seconds of CPU of its own since the loop began is spinning, not starved)
+    since.elapsed() > std::time::Duration::from_secs(120)
+        || all_blocked(tids, socks)
+        || (since.elapsed() > std::time::Duration::from_secs(5) && tids.iter().any(|t| *t != 0 && thread_cpu_ticks(*t) > 500))
+}
+
+/// Wait for a result that normally arrives within microseconds.  Returns None ("it never comes") only once the watchdog
+/// `first` has expired AND all the threads involved are seen blocked with nothing left to read (see `all_blocked`), or after
+/// `cap` at the latest; a machine that is merely slow just makes this wait longer.
+pub fn recv_or_blocked<T>(rx: &std::sync::mpsc::Receiver<T>, first: std::time::Duration, cap: std::time::Duration, tids: &dyn Fn() -> Vec<i32>, socks: &[RawFd]) -> Option<T> {
+    let t0 = std::time::Instant::now();
+    if let Ok(v) = rx.recv_timeout(first) {
+        return Some(v);
+    }
+    // a thread that has burnt three seconds of CPU of its own since the watchdog expired without producing the result is
+    // not starved either: it spins
+    let cpu0: Vec<(i32, u64)> = tids().into_iter().map(|t| (t, thread_cpu_ticks(t))).collect();
+    loop {
+        if all_blocked(&tids(), socks) {
+            // one more look at the channel: the result may have been sent just before the threads went to sleep
+            return rx.try_recv().ok();
+        }
+        if cpu0.iter().any(|(t, c0)| *t != 0 && thread_cpu_ticks(*t) >= *c0 + 300) {
+            return rx.try_recv().ok();
+        }
+        if let Ok(v) = rx.recv_timeout(std::time::Duration::from_millis(200)) {
+            return Some(v);
+        }
+        if t0.elapsed() > cap {
+            return None;
+        }
+    }
+}
+
 // ---------------------------------------------------------------- descriptor accounting (C09)
 pub struct FdWatch {
     before: Vec<String>,
